@@ -42,6 +42,7 @@ type Rule struct {
 	Arrow  string         // rule-level report clause ("" = the nonterminal's default)
 	Deco   map[int]string // text printed before RHS position p (p == len(RHS): end of rule): state markers, lookaheads, actions
 	Inline []Inline       // non-overlapping
+	Plain  bool           // keep without rule-level and in-rule report clauses (reports the nonterminal's default node)
 }
 
 // HasErr reports whether the rule uses the error terminal.
@@ -342,6 +343,9 @@ func (b *builder) annotate(pNT, pRule, pInline float64) {
 	}
 	for i := range b.g.Rules {
 		ru := &b.g.Rules[i]
+		if ru.Plain {
+			continue
+		}
 		if ru.HasErr() {
 			if r.Intn(5) > 0 {
 				ru.Arrow = b.newType("Problem")
